@@ -462,61 +462,66 @@ def rule_literal(ctx, px):
                 shown == [f"{{language.valuetoken_true if {val} else language.valuetoken_false}}"]
             ctx.ob(R, cm.rel, f"{f.short} [bool] :: true / false token by truth value", ok, f"{shown}", r.lineno)
         elif kind == "IntegerType":
-            is_min = any(_is_min_term(e, pol, val, ty) for e, pol in terms)
-            if is_min:
-                n_min += 1
-            good, why = True, ""
+            groups = {True: [], False: []}
             for sh, ac in zip(shown, conds):
-                facts = terms + list(ac)
-                m = re.fullmatch(r"\(\{" + re.escape(val) + r" \+ 1\}(?P<a>.*) - 1(?P<b>.*)\)", sh) if is_min else re.fullmatch(r"\{" + re.escape(val) + r"\}(?P<a>.*)", sh)
-                if m is None or (is_min and m.group("a") != m.group("b")):
-                    good, why = False, f"rendered as {sh}"
-                    break
-                sfx = m.group("a")
-                if sfx == SUFFIX:
+                groups[any(_is_min_term(e, pol, val, ty) for e, pol in terms + list(ac))].append((sh, ac))
+            for is_min in (True, False):
+                if not groups[is_min]:
                     continue
-                if not re.fullmatch(r"[UL]*", sfx):
-                    good, why = False, f"suffix `{sfx}` is neither the symbolic table nor a literal"
-                    break
-                uns = next((pol for e, pol in facts if e == f"isinstance({ty}, pydsdl.UnsignedIntegerType)"), None)
-                if uns is None:
-                    uns = next((not pol for e, pol in facts if e == f"isinstance({ty}, pydsdl.SignedIntegerType)"), None)
-                lo, hi = 0, 10 ** 9        # bit_length in (lo, hi]
-                for e, pol in facts:
-                    try:
-                        node = ast.parse(e, mode="eval").body
-                    except SyntaxError:
+                if is_min:
+                    n_min += 1
+                good, why = True, ""
+                for sh, ac in groups[is_min]:
+                    facts = terms + list(ac)
+                    m = re.fullmatch(r"\(\{" + re.escape(val) + r" \+ 1\}(?P<a>.*) - 1(?P<b>.*)\)", sh) if is_min else re.fullmatch(r"\{" + re.escape(val) + r"\}(?P<a>.*)", sh)
+                    if m is None or (is_min and m.group("a") != m.group("b")):
+                        good, why = False, f"rendered as {sh}"
+                        break
+                    sfx = m.group("a")
+                    if sfx == SUFFIX:
                         continue
-                    if isinstance(node, ast.Compare) and len(node.ops) == 1:
-                        l_, r_ = ast.unparse(node.left), ast.unparse(node.comparators[0])
-                        op = type(node.ops[0])
-                        if r_ == f"{ty}.bit_length" and l_.isdigit():
-                            l_, r_ = r_, l_
-                            op = {ast.Lt: ast.Gt, ast.Gt: ast.Lt, ast.LtE: ast.GtE, ast.GtE: ast.LtE}.get(op, op)
-                        if l_ == f"{ty}.bit_length" and r_.isdigit():
-                            k = int(r_)
-                            says = {ast.Gt: ("gt", k), ast.GtE: ("gt", k - 1), ast.LtE: ("le", k), ast.Lt: ("le", k - 1)}.get(op)
-                            if says:
-                                if not pol:
-                                    says = ("le", says[1]) if says[0] == "gt" else ("gt", says[1])
-                                if says[0] == "gt":
-                                    lo = max(lo, says[1])
-                                else:
-                                    hi = min(hi, says[1])
-                width = "LL" if lo >= 32 else ("L" if lo >= 16 and hi <= 32 else ("" if hi <= 16 else None))
-                if is_min and width is None and lo < 32:
-                    width = None
-                if uns is None or width is None:
-                    good, why = False, f"literal suffix `{sfx}` on a path that does not fix signedness / width class ({facts})"
-                    break
-                want = ("U" if uns else "") + width
-                if sfx != want:
-                    good, why = False, f"suffix `{sfx}` where the type needs `{want}`"
-                    break
-            label = "[int, most negative 64-bit value] :: spelled (value + 1) - 1 with the type's suffix on both literals" if is_min else \
-                "[int] :: decimal value, U exactly for unsigned, L above 16 bits, LL above 32 bits"
-            ctx.ob(R, cm.rel, f"{f.short} {label}", good and bool(shown),
-                   "" if good else why + ": the literal's type is narrower than the constant, or signedness is lost", r.lineno)
+                    if not re.fullmatch(r"[UL]*", sfx):
+                        good, why = False, f"suffix `{sfx}` is neither the symbolic table nor a literal"
+                        break
+                    uns = next((pol for e, pol in facts if e == f"isinstance({ty}, pydsdl.UnsignedIntegerType)"), None)
+                    if uns is None:
+                        uns = next((not pol for e, pol in facts if e == f"isinstance({ty}, pydsdl.SignedIntegerType)"), None)
+                    lo, hi = 0, 10 ** 9        # bit_length in (lo, hi]
+                    for e, pol in facts:
+                        try:
+                            node = ast.parse(e, mode="eval").body
+                        except SyntaxError:
+                            continue
+                        if isinstance(node, ast.Compare) and len(node.ops) == 1:
+                            l_, r_ = ast.unparse(node.left), ast.unparse(node.comparators[0])
+                            op = type(node.ops[0])
+                            if r_ == f"{ty}.bit_length" and l_.isdigit():
+                                l_, r_ = r_, l_
+                                op = {ast.Lt: ast.Gt, ast.Gt: ast.Lt, ast.LtE: ast.GtE, ast.GtE: ast.LtE}.get(op, op)
+                            if l_ == f"{ty}.bit_length" and r_.isdigit():
+                                k = int(r_)
+                                says = {ast.Gt: ("gt", k), ast.GtE: ("gt", k - 1), ast.LtE: ("le", k), ast.Lt: ("le", k - 1)}.get(op)
+                                if says:
+                                    if not pol:
+                                        says = ("le", says[1]) if says[0] == "gt" else ("gt", says[1])
+                                    if says[0] == "gt":
+                                        lo = max(lo, says[1])
+                                    else:
+                                        hi = min(hi, says[1])
+                    width = "LL" if lo >= 32 else ("L" if lo >= 16 and hi <= 32 else ("" if hi <= 16 else None))
+                    if is_min and width is None and lo < 32:
+                        width = None
+                    if uns is None or width is None:
+                        good, why = False, f"literal suffix `{sfx}` on a path that does not fix signedness / width class ({facts})"
+                        break
+                    want = ("U" if uns else "") + width
+                    if sfx != want:
+                        good, why = False, f"suffix `{sfx}` where the type needs `{want}`"
+                        break
+                label = "[int, most negative 64-bit value] :: spelled (value + 1) - 1 with the type's suffix on both literals" if is_min else \
+                    "[int] :: decimal value, U exactly for unsigned, L above 16 bits, LL above 32 bits"
+                ctx.ob(R, cm.rel, f"{f.short} {label}", good and bool(groups[is_min]),
+                    "" if good else why + ": the literal's type is narrower than the constant, or signedness is lost", r.lineno)
         elif kind == "FloatType":
             # the value handed to the cast: "<numerator>.0" for integral rationals, "(<numerator>.0 / <denominator>.0)" otherwise
             call = symstr._Bind(env_r).visit(__import__("copy").deepcopy(r.value)) if env_r else r.value
